@@ -261,17 +261,9 @@ def run(ck):
     got = dict((consts.get(norm(k), norm(k)), v.value) for k, v in zip(tcmp.keys, tcmp.values))
     ok = got == {"==": "==", "<s": "<", "<u": "<", "<=s": "<=", "<=u": "<="}
     ck.ob("R3", "translator:compare-tokens", ok, CPY, "comparison tokens: %s" % got)
-    for b in op_branches(fn, cpy, cpy.cls("TranslatorC"), consts=consts):
-        if "<s" in b["ops"] and "<u" in b["ops"]:
-            body = norm(ast.Module(body=list(b["body"]), type_ignores=[]))
-            signed_cast = re.search(r"if expr\.op in \[TOK_INF_SIGNED, TOK_INF_EQUAL_SIGNED\]:(.*?)else:(.*?)out = ", body, re.S)
-            ok = bool(signed_cast) and "cast = '(int%d_t)' % size" in signed_cast.group(1) and "cast = '(uint%d_t)' % size" in signed_cast.group(2) and \
-                "arg0 = arg0.signExtend(size)" in signed_cast.group(1)
-            ck.ob("R3", "translator:compare-casts", ok, cpy.where(b["node"]), "signed comparisons must cast both operands to intN_t (after sign extension), unsigned ones to uintN_t")
-    # associative / minus tokens
-    t = norm(ast.Module(body=fn.body, type_ignores=[])).replace(" ", "")
-    ok = "out=('%s'%expr.op).join(args)" in t.replace("' %s '", "'%s'") and "out='((%s)&%s)'%(out,self._size2mask(expr.size))" in t
-    ck.ob("R3", "translator:associative", ok, cpy.where(fn), "associative operators must be emitted as the C token between operands, masked to the width")
+    from rules import _composites as _cmp
+    _cmp.c_compare_rules(ck, "R3", cpy.where(fn))
+    _cmp.c_associative_rules(ck, "R3", cpy.where(fn))
     ia = ck.repo.mod("miasm/expression/expression.py").func("is_associative")
     lst = [str_elts(n) for n in walk_body(ia) if isinstance(n, ast.List)]
     ok = bool(lst) and set(lst[0]) == set(["+", "*", "^", "&", "|"])
